@@ -12,6 +12,18 @@ Proof. destruct o; vm_compute; reflexivity. Qed.
 Lemma table_cmpop : forall o, table_fn (OC o) = Some (cmpop_fn o).
 Proof. destruct o; vm_compute; reflexivity. Qed.
 
+(* the regenerated constants.PURE_BUILTIN_FUNCTIONS contains only builtins known to be pure, and
+   every one of them is a builtin name *)
+Lemma pure_table_ok : forall f, In f PURE_BUILTIN_FUNCTIONS -> In f KNOWN_PURE /\ In f BUILTIN_FUNCTIONS.
+Proof.
+  assert (H : forallb (fun f => mem_str f KNOWN_PURE && mem_str f BUILTIN_FUNCTIONS) PURE_BUILTIN_FUNCTIONS = true)
+    by (vm_compute; reflexivity).
+  rewrite forallb_forall in H. intros f Hf. specialize (H f Hf). apply andb_true_iff in H. destruct H as [H1 H2].
+  unfold mem_str in *. apply existsb_exists in H1. apply existsb_exists in H2.
+  destruct H1 as [x [Hx Ex]]. destruct H2 as [y [Hy Ey]].
+  apply String.eqb_eq in Ex. apply String.eqb_eq in Ey. subst. split; assumption.
+Qed.
+
 (* ---------- induction principle for the nested type ---------- *)
 Section ExprInd.
 Variable P : expr -> Prop.
@@ -504,4 +516,211 @@ Proof.
     + rewrite (sim_gap _ Hsa). destruct p as [o b]. cbn [cmp_all]. rewrite table_cmpop. reflexivity.
   - (* ETuple *) f_equal. apply (leval_exact env (ETuple es)). exact H.
   - (* EList *) f_equal. apply (leval_exact env (EList es)). exact H.
+Qed.
+
+(* ---------- T15.3 no exception escapes from literal_value ---------- *)
+Definition safe {A} (r : res A) : Prop := forall k, r = Exc k -> is_exception k = true.
+
+Lemma safe_val : forall {A} (a : A), safe (Val a).
+Proof. intros A a k H. discriminate. Qed.
+Lemma safe_gap : forall {A}, safe (@Gap A).
+Proof. intros A k H. discriminate. Qed.
+Lemma safe_exc : forall {A} k, is_exception k = true -> safe (@Exc A k).
+Proof. intros A k Hk k' H. inversion H. subst. exact Hk. Qed.
+Lemma bind_safe : forall {A B} (r : res A) (f : A -> res B), safe r -> (forall a, safe (f a)) -> safe (bind r f).
+Proof.
+  intros A B r f Hr Hf. destruct r as [a | k |]; cbn [bind].
+  - apply Hf.
+  - intros k' H. inversion H. subst. apply Hr. reflexivity.
+  - apply safe_gap.
+Qed.
+
+Ltac safe_step :=
+  first
+    [ apply safe_val | apply safe_gap | (apply safe_exc; reflexivity)
+    | assumption
+    | apply bind_safe; [| intros ?]
+    | match goal with
+      | |- safe (if ?c then _ else _) => destruct c
+      | |- safe (match ?x with _ => _ end) => destruct x
+      end ].
+Ltac safe_tac := repeat safe_step.
+
+Section ValInd.
+Variable P : val -> Prop.
+Hypothesis HNone : P VNone.
+Hypothesis HBool : forall b, P (VBool b).
+Hypothesis HInt : forall z, P (VInt z).
+Hypothesis HStr : forall s, P (VStr s).
+Hypothesis HTuple : forall l, Forall P l -> P (VTuple l).
+Hypothesis HList : forall l, Forall P l -> P (VList l).
+Fixpoint val_ind' (v : val) : P v :=
+  let list_ind := fix go (l : list val) : Forall P l :=
+    match l with [] => Forall_nil _ | x :: tl => Forall_cons x (val_ind' x) (go tl) end in
+  match v with
+  | VNone => HNone | VBool b => HBool b | VInt z => HInt z | VStr s => HStr s
+  | VTuple l => HTuple l (list_ind l)
+  | VList l => HList l (list_ind l)
+  end.
+End ValInd.
+
+Lemma val_compare_safe : forall a b, safe (val_compare a b).
+Proof.
+  induction a as [| b0 | z | s | l IH | l IH] using val_ind'; intros b.
+  - destruct b; cbn; safe_tac.
+  - destruct b; cbn; safe_tac.
+  - destruct b; cbn; safe_tac.
+  - destruct b; cbn; safe_tac.
+  - destruct b as [| | | | m | m]; try (cbn; safe_tac).
+    cbn [val_compare]. revert m. induction IH as [| x tl Hx _ IHtl]; intros m.
+    + destruct m; safe_tac.
+    + destruct m as [| y m']; [safe_tac|]. destruct (val_eq x y); [apply IHtl | apply Hx].
+  - destruct b as [| | | | m | m]; try (cbn; safe_tac).
+    cbn [val_compare]. revert m. induction IH as [| x tl Hx _ IHtl]; intros m.
+    + destruct m; safe_tac.
+    + destruct m as [| y m']; [safe_tac|]. destruct (val_eq x y); [apply IHtl | apply Hx].
+Qed.
+
+Lemma contains_safe : forall a b, safe (contains a b).
+Proof. intros a b. unfold contains. safe_tac. Qed.
+
+Lemma int_op_safe : forall f a b, (forall x y, safe (f x y)) -> safe (int_op f a b).
+Proof. intros f a b H. unfold int_op. safe_tac. apply H. Qed.
+
+Lemma repeat_seq_safe : forall {X} mk (l : list X) n, safe (repeat_seq mk l n).
+Proof. intros. unfold repeat_seq. safe_tac. Qed.
+
+Lemma opfn_apply_safe : forall f a b, safe (opfn_apply f a b).
+Proof.
+  intros f a b.
+  destruct f; cbn [opfn_apply]; unfold of_cmp;
+    try (safe_tac; fail);
+    try (apply bind_safe; [first [apply val_compare_safe | apply contains_safe] | intros ?; safe_tac]; fail).
+  all: try (apply int_op_safe; intros; safe_tac; fail).
+  all: try (destruct a; destruct b; cbn [as_int both_bool]; try apply repeat_seq_safe; try (apply int_op_safe; intros; safe_tac); safe_tac; fail).
+Qed.
+
+Lemma iter_of_safe : forall v, safe (iter_of v).
+Proof. intros v. unfold iter_of. safe_tac. Qed.
+Lemma val_lt_safe : forall a b, safe (val_lt a b).
+Proof. intros. unfold val_lt. apply bind_safe; [apply val_compare_safe | intros; safe_tac]. Qed.
+Lemma extremum_safe : forall want l best, safe (extremum want best l).
+Proof.
+  intros want l. induction l as [| x t IH]; intros best; cbn [extremum]; [safe_tac|].
+  apply bind_safe; [apply val_compare_safe | intros c; apply IH].
+Qed.
+Lemma insert_sorted_safe : forall x l, safe (insert_sorted x l).
+Proof.
+  intros x l. induction l as [| y t IH]; cbn [insert_sorted]; [safe_tac|].
+  apply bind_safe; [apply val_lt_safe | intros b]. destruct b; [| safe_tac].
+  apply bind_safe; [exact IH | intros; safe_tac].
+Qed.
+Lemma isort_safe : forall l, safe (isort l).
+Proof.
+  induction l as [| x t IH]; cbn [isort]; [safe_tac|].
+  apply bind_safe; [exact IH | intros; apply insert_sorted_safe].
+Qed.
+Lemma sorted_list_safe : forall l, safe (sorted_list l).
+Proof.
+  intros l. unfold sorted_list. destruct l as [| a [| b [| c t]]]; try (safe_tac; fail).
+  - apply bind_safe; [apply val_lt_safe | intros; safe_tac].
+  - destruct (pairwise_comparable (a :: b :: c :: t)); [apply isort_safe | safe_tac].
+Qed.
+Lemma sum_from_safe : forall l acc, safe (sum_from acc l).
+Proof.
+  induction l as [| x t IH]; intros acc; cbn [sum_from]; [safe_tac|].
+  apply bind_safe; [apply opfn_apply_safe | intros; apply IH].
+Qed.
+Lemma join_strs_safe : forall sepr l, safe (join_strs sepr l).
+Proof.
+  intros sepr l. induction l as [| x t IH]; cbn [join_strs]; [safe_tac|].
+  destruct x; safe_tac.
+Qed.
+Lemma parse_int_safe : forall s, safe (parse_int s).
+Proof. intros s. unfold parse_int. safe_tac. Qed.
+Lemma str_of_safe : forall v, safe (str_of v).
+Proof. intros v. unfold str_of. safe_tac. Qed.
+
+Ltac safe_step2 :=
+  first
+    [ apply safe_val | apply safe_gap | (apply safe_exc; reflexivity) | assumption
+    | apply iter_of_safe | apply parse_int_safe | apply str_of_safe | apply sorted_list_safe
+    | apply extremum_safe | apply sum_from_safe | apply join_strs_safe | apply val_compare_safe
+    | apply opfn_apply_safe
+    | apply bind_safe; [| intros ?]
+    | match goal with
+      | |- safe (if ?c then _ else _) => destruct c
+      | |- safe (match ?x with _ => _ end) => destruct x
+      end ].
+
+Lemma call_builtin_safe : forall f a, safe (call_builtin f a).
+Proof. intros f a. unfold call_builtin. repeat safe_step2. Qed.
+
+Lemma call_method_safe : forall r m a, safe (call_method r m a).
+Proof. intros r m a. unfold call_method. repeat safe_step2. Qed.
+
+Lemma eval_list_safe : forall f l, Forall (fun x => safe (f x)) l -> safe (eval_list f l).
+Proof.
+  intros f l H. induction H as [| x t Hx _ IH]; cbn [eval_list]; [safe_tac|].
+  apply bind_safe; [exact Hx | intros v]. apply bind_safe; [exact IH | intros; safe_tac].
+Qed.
+
+Lemma leval_safe : forall e, safe (leval e).
+Proof.
+  induction e as [v0 | x0 | o a IHa | o a b IHa IHb | isand es IHes | a rest IHa IHrest | c a b IHc IHa IHb | es IHes | es IHes | f args kws IHargs IHkws | r m args kws IHargs IHkws] using expr_ind';
+    cbn [leval]; try (safe_tac; fail).
+  - apply bind_safe; [apply eval_list_safe; exact IHes | intros; safe_tac].
+  - apply bind_safe; [apply eval_list_safe; exact IHes | intros; safe_tac].
+Qed.
+
+Lemma sub_wrap_safe : forall r, safe r -> safe (sub (wrap r)).
+Proof.
+  intros [a | k |] H; cbn [wrap].
+  - cbn. safe_tac.
+  - rewrite (H k eq_refl). cbn. safe_tac.
+  - cbn. safe_tac.
+Qed.
+
+Lemma boolop_go_safe : forall f isand l, Forall (fun x => safe (f x)) l -> safe (boolop_go f isand l).
+Proof.
+  intros f isand l H. induction H as [| x t Hx Ht IH]; [cbn; safe_tac|].
+  destruct t as [| y t']; [exact Hx|].
+  change (boolop_go f isand (x :: y :: t')) with
+    (w <- f x ;; if Bool.eqb (truthy w) isand then boolop_go f isand (y :: t') else Val w).
+  apply bind_safe; [exact Hx | intros w]. destruct (Bool.eqb (truthy w) isand); [exact IH | safe_tac].
+Qed.
+
+Lemma cmp_all_safe : forall f l r, safe r -> Forall (fun p => safe (f (snd p))) l -> safe (cmp_all f r l).
+Proof.
+  intros f l. induction l as [| [o b] t IH]; intros r Hr H; cbn [cmp_all]; [safe_tac|].
+  inversion H as [| ? ? Hb Ht]; subst. cbn [snd] in Hb.
+  destruct (table_fn (OC o)); [| safe_tac].
+  apply bind_safe; [exact Hr | intros x]. apply bind_safe; [exact Hb | intros y].
+  apply bind_safe; [apply opfn_apply_safe | intros q]. destruct (truthy q); [apply IH; assumption | safe_tac].
+Qed.
+
+(* the body of _literal_value raises only classes derived from Exception *)
+Lemma lv_body_safe : forall e, safe (sub (lv e)).
+Proof.
+  induction e as [v0 | x0 | o a IHa | o a b IHa IHb | isand es IHes | a rest IHa IHrest | c a b IHc IHa IHb | es IHes | es IHes | f args kws IHargs IHkws | r m args kws IHargs IHkws] using expr_ind';
+    rewrite lv_unfold; apply sub_wrap_safe;
+    (destruct (hse BUILTIN_FUNCTIONS _); [safe_tac|]); try apply leval_safe.
+  - destruct o; try apply leval_safe. apply bind_safe; [exact IHa | intros; safe_tac].
+  - destruct (table_fn (OB o)); [| apply leval_safe].
+    apply bind_safe; [exact IHa | intros x]. apply bind_safe; [exact IHb | intros y]. apply opfn_apply_safe.
+  - destruct es as [| e0 es']; [safe_tac|]. apply boolop_go_safe. exact IHes.
+  - destruct rest as [| p rest']; [safe_tac|]. apply cmp_all_safe; [exact IHa | exact IHrest].
+  - destruct kws; [| apply leval_safe]. destruct (mem_str f PURE_BUILTIN_FUNCTIONS); [| apply leval_safe].
+    apply bind_safe; [apply eval_list_safe; exact IHargs | intros; apply call_builtin_safe].
+  - destruct kws; [| safe_tac].
+    apply bind_safe; [apply eval_list_safe; exact IHargs | intros; apply call_method_safe].
+Qed.
+
+Theorem lv_no_crash : forall e k, lv e <> LCrash k.
+Proof.
+  intros e k H. pose proof (lv_body_safe e k) as Hs. rewrite H in Hs. cbn [sub] in Hs.
+  specialize (Hs eq_refl).
+  (* wrap only produces LCrash for a class that is not an Exception *)
+  rewrite lv_unfold in H. destruct (if hse BUILTIN_FUNCTIONS e then Exc KValue else _) as [a | k' |]; cbn [wrap] in H; try discriminate.
+  destruct (is_exception k') eqn:E; [discriminate|]. inversion H. subst. rewrite E in Hs. discriminate.
 Qed.
